@@ -63,4 +63,29 @@ func init() {
 		Technique:   T + "lower-bound abstract domain with program-wide field-element invariant; constant evaluation of constructor arguments + primitivity test",
 		Assumptions: []string{"code outside the repository does not write the exported LogTbl/ALogTbl fields"},
 	}
+	propInfo["C02"] = PropInfo{
+		Explanation: "DataMatrix: the 24-row symbol size table equals ISO 16022 Table 7 (regions, data/ECC capacity, blocks) and is ascending; the Reed-Solomon field is GF(256)/0x12D base 1; placement patterns, corner conditions, padding constants and the per-block codeword split.",
+		NotDecided:  "the placement traversal as a whole, Reed-Solomon arithmetic and the round trip for arbitrary content.",
+		Technique:   T + "constant-folded table vs embedded ISO table and derived invariants; polynomial normal forms of placement coordinates; reach conditions",
+	}
+	propInfo["C03"] = PropInfo{
+		Explanation: "Aztec: the latch table is validated by running the ISO 24778 mode automaton over every entry; shift table, word sizes per layer count, Galois fields per word size (primitive polynomials), mixed/punct character tables; size and capacity formulas; stuffed bits and word size stay paired.",
+		NotDecided:  "optimality/correctness of the dynamic-programming high-level encoder, bit stuffing and the spiral placement for arbitrary payloads.",
+		Technique:   T + "table entries replayed through an embedded mode automaton; constant evaluation + primitivity test; polynomial normal forms; paired-update invariants on SSA phis",
+	}
+	propInfo["C09"] = PropInfo{
+		Explanation: "Scale: factor, offset and source-coordinate formulas, the exact error guard, the exact fill region, the inner At call, the result rectangle, dispatch on dimensionality, default fill choice and the pass-through methods of the wrapper types are the ones the property prescribes (normal forms and semantic condition equivalence).",
+		NotDecided:  "pixel-exactness for concrete sizes is implied only insofar as these formulas are the specification; float rounding for huge sizes is not modelled.",
+		Technique:   T + "polynomial normal forms through closure capture cells; truth-table/ordering equivalence of path conditions; decision-table extraction",
+	}
+	propInfo["C13"] = PropInfo{
+		Explanation: "smallest symbol: QR and DataMatrix tables are in ascending order and equal ISO capacities, the searches return the FIRST row satisfying the exact capacity guard; Auto tries Numeric, AlphaNumeric, Unicode in that order; Aztec and PDF417 size formulas.",
+		NotDecided:  "minimality for arbitrary content (depends on run-time bit counts).",
+		Technique:   T + "table order + first-match loop shape + guard equivalence (reach conditions vs reference)",
+	}
+	propInfo["C16"] = PropInfo{
+		Explanation: "the whole structural argument for this code base: one mutex, every cache access inside one critical section per call, mutex released on every return; no writes to package-level state outside init (no lazy init); every goroutine closes its channel on all paths; range consumers never leave early; counted consumers return early only after a negative value; no select, no other sync objects, no stored channels; no nondeterministic imports; map ranges order-independent.",
+		NotDecided:  "absence of data races in general (no pointer analysis): sound for this code base under the listed inventories; element-count equality between producers and counted consumers.",
+		Technique:   T + "forward must-analysis of lock state; must-pass-through (close) on the goroutine CFG; loop-escape analysis; reach-condition implication; inventories with floors and canaries",
+	}
 }
